@@ -32,9 +32,10 @@ func TestMain(m *testing.M) {
 		"rapid-generated write workloads (3–14 operations, all five families, databases {0,1,3,12}, TCP and embedded callers, absolute and relative expiries) with REWRITEAOF inserted at drawn positions — including before the first write, twice in a row and after deletes/overwrites. "+
 			"After every acknowledged command the digest D_i of all databases is recorded and the data directory is imaged. Faults enumerated per workload: a process crash at every failpoint (hook H4) of every rewrite — rewrite.begin, state copied, preamble truncated / written / fsynced, log truncate begin / truncated / fsynced, rewrite.done — and at every command boundary; each image must restore to exactly the dataset acknowledged when the rewrite began (a rewrite changes no data), "+
 			"boundary image i to D_i. Then: clean shutdown + restart = D_n; a second generation (more writes and another rewrite on the recovered server, virtual down time in between) + restart reproduces its own recorded digest. "+
-			"A case is one workload with all its faults; non-trivial = at least one rewrite happens after a write and is followed by a restore; distinct = FNV-64 of the workload.",
+			"Writer-in-window leg: for a generated dataset and a generated writer (1–3 write commands) the rewrite is run once per failpoint P of the rewrite with the writer released while the rewriting goroutine is parked at P; when rewrite and writer have returned a restart must serve the final dataset, and a crash image at any later failpoint must restore to the dataset at the start of the rewrite plus a prefix of the writer's commands. "+
+			"A case is one workload with all its faults (or one dataset × writer with all release points); non-trivial = at least one rewrite happens after a write and is followed by a restore; distinct = FNV-64 of the workload.",
 		"a process crash is modelled by copying the data directory at the failpoint; power loss below file-length granularity is not modelled",
-		"the rewrite runs with no concurrent writer in this leg (the writer-inside-the-rewrite-window leg needs the yield hook and is listed in DESIGN.md as not built)",
+		"the concurrent writer is interleaved with the rewrite at failpoint granularity (between its file operations), not inside a file operation",
 		"digest = TYPE, full read and PEXPIRETIME of keys {a,b,c} in databases {0,1,3,12} through the embedded API")
 	common.Main(m, rec)
 }
@@ -426,7 +427,9 @@ func TestReplay(t *testing.T) {
 		t.Skip()
 	}
 	var rf struct {
-		Workload workload `json:"workload"`
+		Leg      string      `json:"leg"`
+		Workload workload    `json:"workload"`
+		Window   *windowCase `json:"window"`
 	}
 	if err := common.LoadJSON(p, &rf); err != nil {
 		t.Fatalf("HARNESS-ERROR: %v", err)
@@ -436,6 +439,10 @@ func TestReplay(t *testing.T) {
 			fmt.Printf("VIOLATION property=C09 replay=%s\n", p)
 		}
 	}()
+	if rf.Leg == "window" && rf.Window != nil {
+		rapid.Check(t, func(t *rapid.T) { windowProperty(t, rf.Window) })
+		return
+	}
 	rapid.Check(t, func(t *rapid.T) { runCase(t, &rf.Workload) })
 }
 
